@@ -1870,7 +1870,8 @@ static void build_expr(WorkList *list, ASTNode *expr, Environment *env) {
                     /* Generate: ({ bool _s; nl_StructName _v; dyn_array_pop_struct(arr, &_v, sizeof(nl_StructName), &_s); _v; }) */
                     emit_formatted(list, "({ bool _s; nl_%s _v; dyn_array_pop_struct(", struct_name);
                     build_expr(list, expr->as.call.args[0], env);  /* array */
-                    emit_formatted(list, ", &_v, sizeof(nl_%s), &_s); _v; })", struct_name);
+                    emit_formatted(list, ", &_v, sizeof(nl_%s), &_s); "
+                                         "if (!_s) { fprintf(stderr, \"Runtime Error: array_pop() on empty array\\n\"); abort(); } _v; })", struct_name);
                 } else {
                     /* Map element type to suffix for primitive types */
                     const char *type_suffix = "int";
@@ -1899,7 +1900,7 @@ static void build_expr(WorkList *list, ASTNode *expr, Environment *env) {
                              type_suffix);
                     emit_literal(list, func_buf);
                     build_expr(list, expr->as.call.args[0], env);  /* array */
-                    emit_literal(list, ", &_s); _v; })");
+                    emit_literal(list, ", &_s); if (!_s) { fprintf(stderr, \"Runtime Error: array_pop() on empty array\\n\"); abort(); } _v; })");
                 }
             }
             /* Special handling for array_get - needs type-specific accessor */
